@@ -88,7 +88,8 @@ fn join6(v: &[i64; 6]) -> String {
 }
 
 pub fn generate(tier: Tier, rng: &mut Rng, emit: &mut dyn FnMut(String)) {
-    let mult: usize = if tier == Tier::Quick { 1 } else { 20 };
+    // (the thorough tier of C08 is dominated by scale.shape / scale.text: 10 of its 15 minutes)
+    let mult: usize = if tier == Tier::Quick { 1 } else { 10 };
     let n = 200 * mult;
     use K::*;
 
